@@ -101,6 +101,16 @@ impl RegionTracker {
     }
 }
 
+#[cfg(redb_verif)]
+impl RegionTracker {
+    pub(super) fn verif_marked_full(&self, region: u32) -> Vec<bool> {
+        self.order_trackers
+            .iter()
+            .map(|t| region >= t.len() || t.get(region))
+            .collect()
+    }
+}
+
 pub(super) struct Allocators {
     pub(super) region_tracker: RegionTracker,
     pub(super) region_allocators: Vec<BuddyAllocator>,
